@@ -225,6 +225,12 @@ fn run_case(cx: &CaseCtx, rep: &mut Report) {
 	if fast {
 		args.push("--fast".into());
 	}
+	// every other pair of cases: a server that logs at trace level (`versatiles -vvvv serve`), as someone
+	// chasing a problem would run it
+	let tracing = (cx.case / 2) % 2 == 1;
+	if tracing {
+		rep.count("servers_logging_at_trace_level", 1);
+	}
 	if group == 3 {
 		args.push("--override-input-compression".into());
 		args.push(if specs[0].2 == Comp::Gzip { "gzip" } else { "brotli" }.into());
@@ -240,7 +246,7 @@ fn run_case(cx: &CaseCtx, rep: &mut Report) {
 		}
 	}
 	cx.progress(&format!("server group {group} fast={fast}"));
-	let mut server = match Server::start(&args, &dir) {
+	let mut server = match if tracing { Server::start_verbose(&args, &dir) } else { Server::start(&args, &dir) } {
 		Ok(s) => s,
 		Err(e) => {
 			rep.inconclusive(&format!("server start failed: {e}"));
